@@ -94,6 +94,10 @@ func runHistory(sp spec, tmp string) (res *result, err error) {
 		h.witnessMemberEpoch()
 	case "d-exec-setup":
 		h.directedExecSetup()
+	case "d-shadow-joiner":
+		h.directedShadowJoiner()
+	case "d-below-old-thr":
+		h.directedBelowOldThreshold()
 	case "gen":
 		for k := 0; k < 2+h.rng.Intn(2) && !h.cut; k++ {
 			h.attempt()
@@ -224,6 +228,66 @@ func (h *hist) witnessMemberEpoch() {
 	h.packet(2, mk(11, nil), "proposal epoch 11 (Left accepts epoch jumps)", "leader")
 	h.packet(2, h.forged(2, "abort", leader, leader), "abort by the leader", "leader")
 	h.packet(2, mk(2, nil), "proposal epoch 2", "leader")
+}
+
+// duplicate-address "shadow" joiners: the joining list re-uses the addresses of the leader n0 and of
+// the remaining member n2 under the attacker's validly self-signed key. The sender of a packet is
+// looked up first-match over Remaining ++ Joining, so the remaining member's own key must be the one
+// that counts: packets claiming n0 / n2 but signed with the planted key must be refused, the genuine
+// members' own packets accepted.
+func (h *hist) directedShadowJoiner() {
+	h.fabricate([]int{0, 1, 2}, 2, uint32(1+h.rng.Intn(3)))
+	x, leader := h.attacker(), h.w.ids[0]
+	sp := mustSnapshot(h.w.nodes[1])
+	t := &pdkg.ProposalTerms{BeaconID: beaconID, Threshold: 3, Epoch: sp.raw.cur.Epoch + 1, Timeout: h.farTimeout(),
+		Leader: proto.Clone(leader.part).(*pdkg.Participant), SchemeID: h.w.sch.Name, BeaconPeriodSeconds: 30, CatchupPeriodSeconds: 5,
+		GenesisTime: timestamppb.New(h.gen), GenesisSeed: h.seed, Remaining: h.parts([]int{0, 1, 2}),
+		Joining: []*pdkg.Participant{h.shadowOf(leader), h.shadowOf(h.w.ids[2])}}
+	// an outsider forges the proposal "from the leader" with the planted key
+	h.packet(1, h.proposalPacket(t, x, leader.part.Address), "forged-proposal:shadow-joiner-key claiming the leader", "outsider")
+	// the genuine leader sends the same terms
+	h.packet(1, h.proposalPacket(t, leader, leader.part.Address), "proposal with shadow joiners (genuine leader)", "leader")
+	// forged and genuine answers in the name of the shadowed member n2
+	h.packet(1, h.forged(1, "accept", h.w.ids[2], x), "forged-accept:shadow-joiner-key claiming n2", "outsider")
+	h.packet(1, h.forged(1, "reject", h.w.ids[2], x), "forged-reject:shadow-joiner-key claiming n2", "outsider")
+	h.packet(1, h.forged(1, "accept", h.w.ids[2], h.w.ids[2]), "accept by n2 (own key)", "member")
+	// forged and genuine leader signals
+	h.packet(1, h.forged(1, "execute", leader, x), "forged-execute:shadow-joiner-key claiming the leader", "outsider")
+	h.packet(1, h.forged(1, "abort", leader, x), "forged-abort:shadow-joiner-key claiming the leader", "outsider")
+	if h.rng.Intn(2) == 0 {
+		h.packet(1, h.forged(1, "execute", leader, leader), "execute by the leader (own key)", "leader")
+	} else {
+		h.packet(1, h.forged(1, "abort", leader, leader), "abort by the leader (own key)", "leader")
+	}
+}
+
+// a reshare that keeps fewer current members than the threshold of the last completed epoch (the old
+// secret cannot be re-shared) while joiners make the new group large enough for all other rules.
+func (h *hist) directedBelowOldThreshold() {
+	all := []int{0, 1, 2, 3}
+	thr := 3
+	if h.rng.Intn(2) == 0 {
+		all, thr = []int{0, 1, 2}, 2
+	}
+	h.fabricate(all, thr, uint32(1+h.rng.Intn(3)))
+	s := reshareSpec{leader: 0, remaining: all, thr: uint32(thr)}
+	// by the operator's command at the leader
+	h.command(0, h.reshareCmd(s, "few-remainers-many-joiners"), "cmd-reshare:few-remainers-many-joiners", "leader", false)
+	// and as a correctly signed packet at a member (listed as leaving) and at a remaining-count boundary
+	o := h.reshareCmd(s, "few-remainers-many-joiners").GetResharing()
+	sp := mustSnapshot(h.w.nodes[1])
+	mk := func(remaining []int) *pdkg.GossipPacket {
+		leaving := without(all, remaining...)
+		n := len(o.Joining) + len(remaining)
+		t := &pdkg.ProposalTerms{BeaconID: beaconID, Threshold: uint32(minT(n)), Epoch: sp.raw.cur.Epoch + 1, Timeout: h.farTimeout(),
+			Leader: h.parts([]int{0})[0], SchemeID: h.w.sch.Name, BeaconPeriodSeconds: 30, CatchupPeriodSeconds: 5,
+			GenesisTime: timestamppb.New(h.gen), GenesisSeed: h.seed, Remaining: h.parts(remaining), Leaving: h.parts(leaving), Joining: o.Joining}
+		return h.proposalPacket(t, h.w.ids[0], h.w.ids[0].part.Address)
+	}
+	h.packet(1, mk([]int{0}), "proposal:few-remainers-many-joiners", "leader")
+	h.packet(2, mk(all[:thr-1]), "proposal:one-below-old-threshold", "leader")
+	// exactly the old threshold remains: accepted
+	h.packet(2, mk(all[:thr]), "proposal:exactly-old-threshold", "leader")
 }
 
 // coverage of the save-then-fail Execute path: a joiner accepts a proposal whose remaining list holds
@@ -385,7 +449,7 @@ func Run(name, prop string) func(outDir string, seed int64, tier string) error {
 				specs = append(specs, spec{id: len(specs), kind: kind, seed: rng.Int63()})
 			}
 		}
-		for _, wk := range []string{"w-fresh-epoch", "w-left-panic", "w-key-subst", "w-nonleader-exec", "w-nil-leader", "w-unsigned-key", "w-member-epoch", "d-exec-setup"} {
+		for _, wk := range []string{"w-fresh-epoch", "w-left-panic", "w-key-subst", "w-nonleader-exec", "w-nil-leader", "w-unsigned-key", "w-member-epoch", "d-exec-setup", "d-shadow-joiner", "d-below-old-thr"} {
 			add(wk, 1)
 		}
 		nGen, nFab, nKy, nSleep := 24, 44, 5, 4
